@@ -296,4 +296,16 @@ COMMON_ASSUMPTIONS = [
 
 
 def extra_evidence(prop, merged):
-    return {}
+    out = {}
+    if prop in ('C02', 'C19', 'C09'):
+        out['exhaustive_subspace'] = (
+            'cluster operation histories: every sequence over the 24-letter alphabet of '
+            'vt/clusterhist.alphabet() to depth 3 on 2 machines (13 824 sequences) in the quick '
+            'tier; C02 thorough: depth 4 on 2 machines (331 776) and depth 3 on 3 machines; the '
+            'random histories and the simulation trajectories are sampled, so the check as a '
+            'whole is not exhaustive')
+        out['history_jobs'] = int(merged['kinds'].get('hist', 0))
+    if prop == 'C11':
+        out['exhaustive_subspace'] = ('thorough tier: every pause point k in 1..T for reference '
+                                      'runs with T <= 40; quick tier: 6 pause points per case')
+    return out
